@@ -31,6 +31,11 @@ def rain_value(draw, klass, s):
         return n / 64.0
     if klass == 'exact':
         return s
+    if klass == 'hair':
+        # strictly above the threshold by a hair (1e-6 relative, or one ulp)
+        import math
+        return draw(st.sampled_from(
+            [s * (1 + 1e-6), s * (1 + 1e-9), math.nextafter(s, math.inf)]))
     return s + draw(st.integers(1, 640)) / 64.0
 
 
@@ -247,15 +252,23 @@ def float_records(draw, max_steps=30):
         [4.0, 8.0, 1e-6, 250.0])))
     j = draw(st.one_of(st.floats(1e-3, 60.0), st.sampled_from(
         [8.0, 5.0, 1e-6, 500.0])))
+    # values a hair above / below a threshold (1e-6, 1e-9 relative, one ulp)
+    import math
+    hairs = [1 + 1e-6, 1 + 1e-9, 1 - 1e-6, 1 - 1e-9]
+    near_s = [s * f for f in hairs] + [math.nextafter(s, math.inf),
+                                       math.nextafter(s, 0.0)]
     rain = [draw(st.one_of(st.just(0.0), st.just(0.0),
                            st.floats(0.0, 3 * s + 1.0),
-                           st.just(s))) for _ in range(n)]
+                           st.just(s), st.sampled_from(near_s)))
+            for _ in range(n)]
     scale = j * dt / 3600.0
+    near_j = [scale * f for f in hairs]
     z = [draw(st.floats(-500.0, 500.0))]
     for _ in range(n):
         z.append(z[-1] + draw(st.one_of(
             st.floats(-2 * scale, 3 * scale), st.just(0.0),
-            st.just(scale), st.floats(-0.5, 0.0))))
+            st.just(scale), st.sampled_from(near_j),
+            st.floats(-0.5, 0.0))))
     removed = draw(gaps_for(0, n + 1))
     wl = [[k * dt, v] for k, v in enumerate(z) if k not in removed]
     et = [[i, 0.125] for i in range(-2, n + 4)]
